@@ -92,7 +92,9 @@ def close_delete_deadlock(dump):
     file set for its duration) and waits for Index.mu in Index.DropSeries (function names, not line numbers)"""
     blocks = dump.split('\n\ngoroutine ')
     closer = any('tsi1.(*LogFile).Close' in b and 'tsi1.(*Index).Close' in b and 'tsdb.(*Shard).closeNoLock' in b for b in blocks)
-    deleter = any('tsi1.(*Index).DropSeries' in b and 'tsm1.(*Engine).deleteSeriesRange' in b and '.Lock' in b for b in blocks)
+    # the deleter holds the file-set reference for the whole of DeleteSeriesRangeWithPredicate; where exactly it is blocked
+    # (Index.mu in DropSeries, a partition lock, ...) varies with the moment Close overtook it
+    deleter = any(('tsm1.(*Engine).deleteSeriesRange' in b or 'tsm1.(*Engine).DeleteSeriesRangeWithPredicate' in b) for b in blocks)
     return closer and deleter
 
 
